@@ -92,6 +92,30 @@ fn create_cstore_response(
     ])
 }
 
+/// Build the path of the file in which to store an incoming instance.
+///
+/// The file always lies directly inside the output directory:
+/// the SOP instance UID comes from the peer,
+/// so any character which could be interpreted as part of a path
+/// (separators, leading dots) is replaced.
+fn instance_file_path(out_dir: &std::path::Path, sop_instance_uid: &str) -> PathBuf {
+    let mut name: String = sop_instance_uid
+        .trim_end_matches(['\0', ' '])
+        .chars()
+        .map(|c| {
+            if c.is_ascii_alphanumeric() || matches!(c, '.' | '-' | '_') {
+                c
+            } else {
+                '_'
+            }
+        })
+        .collect();
+    if name.starts_with('.') || name.is_empty() {
+        name.insert(0, '_');
+    }
+    out_dir.join(name + ".dcm")
+}
+
 fn create_cecho_response(message_id: u16) -> InMemDicomObject<StandardDataDictionary> {
     InMemDicomObject::command_from_element_iter([
         DataElement::new(tags::COMMAND_FIELD, VR::US, dicom_value!(U16, [0x8030])),
